@@ -141,8 +141,42 @@ def determinism(args):
     return 1 if bad else 0
 
 
+def seeded(args):
+    """run the property check(s) against seeded/<id>/patch.diff in an overlay; args: [id-substring] [--props C11,C20]"""
+    root = os.path.join(VERIF_DIR, 'seeded')
+    sub = args[0] if args and not args[0].startswith('--') else None
+    props_override = None
+    for a in args:
+        if a.startswith('--props='):
+            props_override = a.split('=', 1)[1].split(',')
+    bad = 0
+    for name in sorted(os.listdir(root)):
+        d = os.path.join(root, name)
+        pf = os.path.join(d, 'patch.diff')
+        if not os.path.isdir(d) or not os.path.exists(pf):
+            continue
+        if sub and sub not in name:
+            continue
+        props = props_override or [name.split('-')[0]]
+        ovl = make_overlay(pf)
+        try:
+            for prop in props:
+                t0 = time.time()
+                rc, agg, _ = run_quiet(prop, ovl, scale=float(os.environ.get('VERIF_SENS_SCALE', '1.0')))
+                print('%-28s %s rc=%d %s %.1fs' % (name, prop, rc, 'CAUGHT' if rc == 1 else ('missed' if rc == 0 else 'HARNESS-ERROR'),
+                                                  time.time() - t0))
+                sys.stdout.flush()
+                if rc != 1:
+                    bad += 1
+        finally:
+            shutil.rmtree(ovl, ignore_errors=True)
+    return 1 if bad else 0
+
+
 def main(argv):
     cmd = argv[0] if argv else 'all'
+    if cmd == 'seeded':
+        return seeded(argv[1:])
     if cmd == 'mkpatches':
         mkpatches()
         return 0
